@@ -127,12 +127,19 @@ static void prog_ini (void) {
 static void prog_hashes (void) {
 	int a;
 	for (a = 0; a <= 10; a++) {
-		PCryptoHash *h; pchar *s; puchar d[64]; psize n = sizeof d;
+		PCryptoHash *h; pchar *s, *sref = NULL; puchar d[64]; psize n = sizeof d;
 		B ("p_crypto_hash_new"); h = p_crypto_hash_new ((PCryptoHashType) a); E (h != NULL, 1, 1);
 		if (!h) continue;
 		B ("p_crypto_hash_update"); p_crypto_hash_update (h, (const puchar *) "abc", 3); E (1, 1, 1);
-		B ("p_crypto_hash_get_string"); s = p_crypto_hash_get_string (h); E (s != NULL, 1, 1); p_free (s);
-		B ("p_crypto_hash_get_digest"); p_crypto_hash_get_digest (h, d, &n); E (n > 0, 1, 1);
+		/* reference digest of the same message from a second context (observation: never refused) */
+		{ PCryptoHash *r; nofail++; r = p_crypto_hash_new ((PCryptoHashType) a); p_crypto_hash_update (r, (const puchar *) "abc", 3); sref = p_crypto_hash_get_string (r); p_crypto_hash_free (r); nofail--; }
+		B ("p_crypto_hash_get_string"); s = p_crypto_hash_get_string (h);
+		/* whether or not the string could be allocated, the context still holds the digest of "abc": a second read must give it */
+		{ pchar *s2; int cons = s == NULL || (sref && !strcmp (s, sref)), pres; nofail++; s2 = p_crypto_hash_get_string (h); pres = s2 && sref && !strcmp (s2, sref); p_free (s2); nofail--; E (s != NULL, cons, pres); }
+		p_free (s);
+		B ("p_crypto_hash_get_digest"); p_crypto_hash_get_digest (h, d, &n);
+		{ char hex[160]; psize i; int same; for (i = 0; i < n && i < 64; i++) sprintf (hex + 2 * i, "%02x", d[i]); hex[2 * (n < 64 ? n : 64)] = 0; same = sref && !strcmp (hex, sref); E (n > 0, same, 1); }
+		nofail++; p_free (sref); sref = NULL; nofail--;
 		B ("p_crypto_hash_reset"); p_crypto_hash_reset (h); E (1, 1, 1);
 		B ("p_crypto_hash_free"); p_crypto_hash_free (h); E (1, 1, 1);
 	}
